@@ -2,6 +2,7 @@
    Property theorems only; each is closed by [exact lemma] and followed by Print Assumptions. *)
 From GL Require Import Base.Order Base.BytesProofs Base.OrderProofs Codec.BytesCmp Codec.BytesCmpProofs
   Codec.IKey Codec.IKeyProofs Codec.IKeyProbeProofs Gen.ConstsOk.
+From GL Require Import Base.OrderPre Codec.IKeyPreProofs Codec.IKeyProbePreProofs Codec.CiCmp Codec.CiCmpProofs.
 
 (* 1. The internal order is a strict total order for every valid comparer; Eq iff identical. *)
 Theorem C15_icmp_eq : forall c, comparer_ok c -> forall a b, icmp c a b = Eq <-> a = b.
@@ -138,4 +139,39 @@ Proof.
       (split; [vm_compute; reflexivity | vm_compute; discriminate]).
   - split; [intros x Hx; cbn in Hx; destruct Hx as [<-|[<-|[]]]; vm_compute; reflexivity|].
     split; [vm_compute; discriminate|]. split; vm_compute; reflexivity.
+Qed.
+
+(* 3c. The same two statements under the WEAKER comparer contract comparer_pre_ok (total preorder:
+      keys comparing Eq are one user key, e.g. a case-insensitive order): "carries k" is keq. *)
+Theorem C15_probe_precedes_iff_pre : forall c, comparer_pre_ok c -> forall e s' t k s,
+  num e = pack s' t -> (t <= keyTypeSeek kp)%N ->
+  icmp c e (probe kp k s) = Lt <-> (cmp c (uk e) k = Lt \/ (keq c (uk e) k /\ (s < s')%N)).
+Proof. intros c ok. exact (pprobe_precedes_iff c kp kp_ok). Qed.
+Print Assumptions C15_probe_precedes_iff_pre.
+
+Theorem C15_probe_lands_on_newest_visible_pre : forall c, comparer_pre_ok c -> forall l1 e l2 k s,
+  psorted c (l1 ++ e :: l2) ->
+  (forall x, In x (l1 ++ e :: l2) -> ptrailer_ok kp x) ->
+  (forall x, In x l1 -> icmp c x (probe kp k s) = Lt) ->
+  icmp c e (probe kp k s) <> Lt ->
+  (forall x, In x l1 -> ~ (keq c (uk x) k /\ (pseq_of x <= s)%N)) /\
+  (keq c (uk e) k -> (pseq_of e <= s)%N /\
+     forall x, In x (l1 ++ e :: l2) -> keq c (uk x) k -> (pseq_of x <= s)%N -> (pseq_of x <= pseq_of e)%N) /\
+  (~ keq c (uk e) k -> forall x, In x (l1 ++ e :: l2) -> ~ (keq c (uk x) k /\ (pseq_of x <= s)%N)).
+Proof. intros c ok. exact (pprobe_lands_on_newest_visible c ok kp kp_ok). Qed.
+Print Assumptions C15_probe_lands_on_newest_visible_pre.
+
+(* Non-vacuity of 3c on the non-injective comparer cicmp: run [KEY@7 | key@4; Key@2], probe ("Key", 5). *)
+Example C15_probe_run_pre_nonvacuous :
+  let l1 := [ {| uk := [75;69;89]%N; num := pack 7 1 |} ] in
+  let e := {| uk := [107;101;121]%N; num := pack 4 1 |} in
+  let l2 := [ {| uk := [75;101;121]%N; num := pack 2 0 |} ] in
+  let k := [75;101;121]%N in
+  comparer_pre_ok cicmp /\ psorted cicmp (l1 ++ e :: l2) /\
+  (forall x, In x l1 -> icmp cicmp x (probe kp k 5) = Lt) /\
+  icmp cicmp e (probe kp k 5) <> Lt /\ keq cicmp (uk e) k /\ uk e <> k.
+Proof.
+  cbv zeta. split; [exact cicmp_pre_ok|]. split; [vm_compute; tauto|].
+  split; [intros x Hx; cbn in Hx; destruct Hx as [<-|[]]; vm_compute; reflexivity|].
+  split; [vm_compute; discriminate|]. split; [vm_compute; reflexivity|discriminate].
 Qed.
